@@ -588,9 +588,69 @@ func checkBand(c bandCase) evid.Outcome {
 	return evid.Outcome{NonTrivial: changed > 0 && bandObserve(a) != pristine, Class: c.Band}
 }
 
+// ---- 4c. the first configuration of a process and the configurations obtained after it ----
+
+type cfgOrderCase struct {
+	Band string `json:"band"`
+	// First: index of the (repeater, dwell) combination configured first; the other three follow
+	First int `json:"first"`
+}
+
+// checkCfgOrder must see the band before anything else in the process configured it: state shared between
+// configurations (a package-level table that a constructor adjusts in place) is wrong from the first adjustment on, and
+// every later comparison of two objects would compare two equally wrong ones.
+func checkCfgOrder(c cfgOrderCase) evid.Outcome {
+	combos := [][2]bool{{false, false}, {true, false}, {false, true}, {true, true}}
+	if c.First < 0 || c.First > 3 {
+		return evid.Outcome{Skip: true}
+	}
+	dwell := func(d bool) lorawan.DwellTime {
+		if d {
+			return lorawan.DwellTime400ms
+		}
+		return lorawan.DwellTimeNoLimit
+	}
+	f := combos[c.First]
+	first, err := band.GetConfig(band.Name(c.Band), f[0], dwell(f[1]))
+	if err != nil {
+		return evid.Outcome{Skip: true}
+	}
+	pristine := bandObserve(first)
+	for i, o := range combos {
+		if i == c.First {
+			continue
+		}
+		if _, err := band.GetConfig(band.Name(c.Band), o[0], dwell(o[1])); err != nil {
+			return evid.Fail("GetConfig(%s, %v, %v): %v", c.Band, o[0], o[1], err)
+		}
+		if now := bandObserve(first); now != pristine {
+			return evid.Fail("%s: the object configured first (repeater=%v dwell400ms=%v) changed when the configuration (repeater=%v dwell400ms=%v) was obtained afterwards: separate configuration calls share mutable state", c.Band, f[0], f[1], o[0], o[1])
+		}
+	}
+	again, _ := band.GetConfig(band.Name(c.Band), f[0], dwell(f[1]))
+	if bandObserve(again) != pristine {
+		return evid.Fail("%s: (repeater=%v dwell400ms=%v) configured a second time, after the three other combinations had been configured, differs from the first object of the process", c.Band, f[0], f[1])
+	}
+	return evid.Outcome{NonTrivial: true, Class: c.Band}
+}
+
 func TestProp(t *testing.T) {
 	r := evid.Begin(t, "C10")
 	defer r.Finish()
+
+	// first, while no band has been configured in this process yet (every shard is a process of its own and takes
+	// another combination first)
+	evid.Exhaustive(r, t, "band-configuration-order",
+		"the 14 bands; in every shard process, before anything else configures a band: GetConfig for one (repeater, dwell-time) combination - which one rotates with the shard number and the band -, observe it (snapshot hook incl. max-payload tables, getters, CFList, LinkADRReq plan), then GetConfig for the three other combinations, the first object must be unchanged after each; the first combination configured again must give an object equal to the first. Every case is non-trivial.",
+		true,
+		func(emit func(cfgOrderCase)) {
+			for i, n := range bandNames {
+				for s := 0; s < r.NShards; s++ {
+					// round-robin dealing: case index i*NShards+s goes to shard s
+					emit(cfgOrderCase{Band: string(n), First: (i + s) % 4})
+				}
+			}
+		}, checkCfgOrder)
 
 	evid.Rapid(r, t, "input-output-aliasing",
 		fmt.Sprintf("rapid: valid frames of all MTypes (half of them further decoded into MAC commands) and each of the %d decoder types on inputs of an accepted length: the decoded value is observed (re-encoding, JSON, deep print), the input buffer is overwritten with its complement, and the value must be unchanged; for frames also the bytes returned by MarshalBinary/MarshalText are overwritten. Non-trivial: accepted input longer than 8 bytes.", len(gen.Decoders)),
